@@ -8,3 +8,4 @@ open Cst.C08
 #print axioms unbounded_is_unsound
 #print axioms text_sound
 #print axioms kind_irrelevant
+#print axioms iter_sound
